@@ -104,6 +104,13 @@ def body_agp(case, rec):
     again = must(fmt, back, "agp", what="format_agp(parse_agp(text))")
     if again != text:
         raise Violation(f"re-formatting parsed canonical AGP text differs: {first_diff(text, again)}")
+    # writing an assembly must not change it: TPF first (it may refuse '?' strands), then AGP again from the same object
+    try:
+        fmt(asm, "tpf")
+    except Exception:  # noqa: BLE001
+        pass
+    if must(fmt, asm, "agp", what="format_agp after format_tpf") != text:
+        raise Violation("formatting the same assembly object as TPF changed what format_agp writes for it afterwards")
 
 
 def tpf_carryable(case):
@@ -169,7 +176,7 @@ def body_cli(case, rec):
         raise Violation(f"asm-format -f TPF -o step1.agp did not write TPF: {first_diff(want_tpf, got3)}")
     # the same conversion with the AGP on standard input and the TPF on standard output (overlap QC on: its report belongs on STDERR)
     if case.get("stdin"):
-        r = remap.run_cli_subprocess(["-i", "AGP", "-f", "TPF", "--qc-overlaps"], script="asm_format", stdin=agp)
+        r = remap.run_cli_subprocess((["-i", "AGP"] if len(case["scaffolds"]) % 2 else []) + ["-f", "TPF", "--qc-overlaps"], script="asm_format", stdin=agp)
         if r.returncode != 0:
             raise Violation(f"asm-format reading STDIN failed: {r.stderr[-300:]}")
         if r.stdout != want_tpf:
